@@ -367,8 +367,8 @@ static int pick_alive(vh_rng* r, int want_holder) {
   for (int i = 0; i < nn; i++) {
     if (!N[i].alive) { continue; }
     if (want_holder && N[i].kind == NK_BOX) { continue; }
-    if (!want_holder && N[i].boxed) { continue; }         /* boxed objects have exactly one owner */
-    if (!want_holder && N[i].is_root) { continue; }       /* root holders are deleted by hand (del_root): nothing may point at them */
+    if (want_holder != 1 && N[i].boxed) { continue; }         /* boxed objects have exactly one owner */
+    if (want_holder == 0 && N[i].is_root) { continue; }   /* want_holder 2: any target, root holders included */
     seen++;
     if (vh_below(r, (uint64_t)seen) == 0) { chosen = i; }
   }
@@ -391,6 +391,11 @@ static int rand_kind(vh_rng* r) {
 static int link_into(vh_rng* r, int h, int target) {
   struct snode* s = &N[h];
   int removed = 0;
+  /* Root holders are deleted by hand (del_root), at the latest at the end of the case, when garbage may still
+     point at them.  A Mark callback that hands plain pointers to the collector (Tuple, struct+Mark) makes the
+     collector read the header of whatever it is given, so such a holder must never be left pointing at a deleted
+     object (a dangling pointer in a Tuple is a program error); all other holders are scanned by address only. */
+  if (target >= 0 && N[target].is_root && (s->kind == NK_TUPLE || s->kind == NK_PMARK)) { return 0; }
   if (is_struct_kind(s->kind) || s->kind == NK_REF) {
     int slot = s->kind == NK_REF ? 0 : (int)vh_below(r, PN_FIELDS);
     if (s->f[slot] >= 0) { removed = 1; }
@@ -501,12 +506,32 @@ static void set_root_slot(int slot, int target) {
 
 static void op_alloc_and_link(vh_rng* r) {
   int kind = rand_kind(r);
-  int as_root = kind == NK_PNODE && vh_chance(r, 6);
+  int as_root = kind == NK_PNODE && vh_chance(r, 10);
   volatile var keep;          /* the new object lives in this frame until it is linked */
   int n = alloc_node(kind, as_root);
   keep = N[n].ptr;
   vh_op("n%d=new %s%s", n, NKNAME[kind], as_root ? " (root)" : "");
-  if (as_root) { vh_count("root_holders_allocated"); keep = NULL; return; }
+  if (as_root) {
+    /* a root holder may itself be referenced: from thread-local storage, from another root holder, from any
+       object.  The collector then meets it before (or instead of) its own pass over the root entries, and must
+       still trace what it holds.  del_root happens only once nothing -- garbage included -- points at it. */
+    vh_count("root_holders_allocated");
+    int how = (int)vh_below(r, 3);
+    if (how == 0) {
+      int t = (int)vh_below(r, NTLS);
+      set(current(Thread), $S((char*)TLSKEY[t]), N[n].ptr);
+      tls_node[t] = n;
+      vh_op("tls[%d]=n%d", t, n);
+      vh_count("root_holders_stored_in_thread_local_storage");
+    } else if (how == 1) {
+      int h = -1, seen = 0;
+      for (int i = 0; i < nn; i++) { if (i != n && N[i].alive && N[i].is_root) { seen++; if (vh_below(r, (uint64_t)seen) == 0) { h = i; } } }
+      if (h >= 0) { link_into(r, h, n); vh_count("root_holders_referenced_by_another_root_holder"); if (vh_chance(r, 50)) { link_into(r, n, h); vh_count("root_holder_cycles"); } }
+    }
+    keep = NULL;
+    recompute_reachability();
+    return;
+  }
   int removed = 0;
   int h = vh_chance(r, 75) ? pick_alive(r, 1) : -1;
   if (h >= 0 && h != n) { removed = link_into(r, h, n); }
@@ -529,9 +554,10 @@ static void op_alloc_and_link(vh_rng* r) {
 }
 
 static void op_link_existing(vh_rng* r) {
-  int h = pick_alive(r, 1), t = pick_alive(r, 0);
+  int h = pick_alive(r, 1), t = pick_alive(r, vh_chance(r, 15) ? 2 : 0);
   if (h < 0 || t < 0) { return; }
   if (h == t) { vh_count("self_references"); }
+  if (N[t].is_root) { vh_count("edges_to_root_holders"); }
   link_into(r, h, t);
   recompute_reachability();
 }
@@ -795,6 +821,38 @@ static void __attribute__((noinline)) shape_fanout(int n) {
   end_of_case();
 }
 
+/* root-registered holders that the collector reaches BEFORE its own pass over the root entries gets to them:
+** from thread-local storage (marked first), from another root holder (slot order decides which of two comes
+** first, so both directions and a cycle are built).  Everything below them is reachable only through them. */
+static void __attribute__((noinline)) shape_rooted(int nholders, int depth) {
+  var roots[NROOTS];
+  reset_world(roots); rs_reset();
+  vh_op("rooted: %d root holders, chains of %d below each", nholders, depth);
+  int* h = malloc(sizeof(int) * (size_t)nholders);
+  for (int i = 0; i < nholders; i++) {
+    h[i] = alloc_node(NK_PNODE, 1);
+    int prev = h[i];
+    for (int d = 0; d < depth; d++) {
+      int x = alloc_node(d % 3 == 1 ? NK_REF : d % 3 == 2 ? NK_PMARK : NK_PNODE, 0);
+      store_field(prev, 0, x);
+      prev = x;
+    }
+  }
+  /* holder 0 in thread-local storage; holders 1..: a cycle through field 1, and field 2 of everyone points at holder 1 */
+  set(current(Thread), $S((char*)TLSKEY[0]), N[h[0]].ptr); tls_node[0] = h[0];
+  for (int i = 1; i < nholders; i++) { store_field(h[i], 1, h[i + 1 < nholders ? i + 1 : 1]); }
+  for (int i = 2; i < nholders; i++) { store_field(h[i], 2, h[1]); }
+  recompute_reachability();
+  forced_collection("rooted");
+  op_garbage(&(vh_rng){{5,6,7,8}});
+  forced_collection("rooted after garbage");
+  /* threshold collections too */
+  for (int k = 0; k < 6; k++) { op_garbage(&(vh_rng){{9,10,11,(uint64_t)k}}); check_reachable("rooted, garbage churn"); }
+  vh_count("rooted_shapes");
+  free(h);
+  end_of_case();
+}
+
 /* chain of n links; the collection runs in a child so that a crash of the collector is observed, not suffered */
 static void shape_chain(int n, int kind) {
   fflush(NULL);
@@ -850,6 +908,7 @@ static void fixed(void) {
   shape_ring(10, NK_REF);
   shape_complete(2); shape_complete(5); shape_complete(12);
   shape_fanout(1000);
+  shape_rooted(2, 1); shape_rooted(3, 4); shape_rooted(9, 3); shape_rooted(40, 2);
   vh.oplen = 0; vh.oplog[0] = 0; vh.nops = 0;
   static const int KINDS[] = { NK_PNODE, NK_REF, NK_TUPLE };
   for (int k = 0; k < 3 && check_c01; k++) {
